@@ -15,11 +15,11 @@ CHECKS = {
    "Generated scenarios with tiny windows/limits and lossy delivery of MAX_* frames; invariant evaluated at every sent packet against the credit the endpoint had processed by then; plus the complete single-fault enumeration over four fixed scenarios (as C01).",
    E2E_NOTE + " initial_max_data is taken from the peer's configuration.", "DESIGN.md section 4 C03"),
  "C04": ("world", "property-based testing with an injected misbehaving peer: a catalogue of protocol violations (RFC 9000 sections 4, 19) is spliced into real connections by the packet interceptor; oracle = permitted error-code table, reaction window, ordinary-completion counterfactual",
-   "One s2n-quic endpoint's outgoing packets are rewritten before encryption so that it becomes a peer violating one stated rule (flow control overrun at connection/stream level, stream-id beyond limit, wrong-direction frames, final-size changes, near and far variants) at a generated point of a generated scenario; the other endpoint must close with one of the error codes RFC 9000 permits for that violation before it processes the next packet, must not deliver the offending data, and a non-violating control variant must not be rejected.",
+   "One s2n-quic endpoint's outgoing packets are rewritten before encryption so that it becomes a peer violating one stated rule (flow control overrun at connection/stream level, stream-id beyond limit, wrong-direction frames, final-size changes, a RESET_STREAM beyond the limit for a stream the victim application has stopped, near and far variants) at a generated point of a generated scenario; the other endpoint must close with one of the error codes RFC 9000 permits for that violation before it processes the next packet, must not deliver the offending data, and a non-violating control variant must not be rejected.",
    E2E_NOTE + " The violating frames are produced by the harness (evil.rs) and verified on the wire by its own parser; the violation catalogue is finite.", "DESIGN.md section 4 C04"),
- "C06": ("world", "property-based testing with an injected off-path attacker (forged, replayed, truncated and bit-flipped datagrams built from observed traffic, without keys) + metamorphic comparison with the attack-free run of the same scenario",
-   "Generated scenarios are run twice, with and without a generated list of attacker datagrams injected after the handshake; everything the applications observe (bytes, ends, error kinds) on established connections must be identical, no connection may be closed or reset by the injections, and no payload byte of an injected datagram may reach an application.",
-   E2E_NOTE + " The attacker has no keys (it only transforms observed datagrams); stateless-reset tokens are generated by the harness provider and never shown to the attacker.", "DESIGN.md section 4 C06"),
+ "C06": ("world", "property-based testing with an injected off-path attacker (forged, replayed, truncated and bit-flipped datagrams built from observed traffic, without keys) + metamorphic comparison with the attack-free run of the same scenario; differential property-based testing of the packet protection of all three cipher suites against an RFC 9001 transcription on raw primitives, with generated forgeries and a complete single-bit-flip enumeration",
+   "Generated scenarios are run twice, with and without a generated list of attacker datagrams injected after the handshake; everything the applications observe (bytes, ends, error kinds) on established connections must be identical, no connection may be closed or reset by the injections, and no payload byte of an injected datagram may reach an application. Half of the cases run on TLS_AES_256_GCM_SHA384, a third with frequent 1-RTT key updates. Component level (all three suites, Initial / 0-RTT / Handshake / 1-RTT generations 0..6, packet numbers over [0,2^62)): packets sealed by s2n-quic must equal, byte for byte, an independent RFC 9001 section 5 transcription; every generated mutation (and every single bit flip and truncation of 12 fixed packets, complete) must be refused.",
+   E2E_NOTE + " The attacker has no keys (it only transforms observed datagrams); stateless-reset tokens are generated by the harness provider and never shown to the attacker. TLS_CHACHA20_POLY1305_SHA256 cannot be negotiated end to end with s2n-tls (no policy selects it) and is covered at component level only; the component reference shares the HMAC / AEAD / AES block primitives of aws-lc-rs with the code under test (labels, nonce, AAD, sampling, masks and the ChaCha20 block are independent; self-tested on RFC 9001 appendix A and RFC 8439 vectors).", "DESIGN.md section 4 C06"),
  "C05": ("comp", "differential property-based testing of s2n-quic-core's codecs against an independent reference codec (refquic), round-trip / announced-size / shortest-form checks, exhaustive short varints; plus a coverage-guided libFuzzer stage (frames, datagram headers) with the same differential oracle in-target",
    "Typed values, grammar-generated bytes (incl. non-minimal varints), single/multi-byte mutations, truncations at every length and raw bytes for varints, every frame type, packet headers of every type, packet numbers and transport-parameter TLVs: s2n and the reference parser must agree on error-vs-value, every field and bytes consumed; encoders round-trip with the announced size. An explicit latitude list covers what RFC 9000 leaves open. A coverage-guided stage (cargo-fuzz/libFuzzer, fixed number of runs, fresh corpus seeded from the repository's sample encodings) drives the raw-bytes differential oracles of frames and datagram headers; its statistics are in coverage.fuzz of the evidence.",
    "Trusted base: harness/crates/refquic (written from RFC 9000 sections 16-19 and RFC 9221 only, self-tested) and the latitude list in c05_codec.rs.", "DESIGN.md section 4 C05"),
